@@ -336,7 +336,7 @@ def sigOf (D : Decls) (ity : TyRef) (m : String) : Nat :=
 /-- `_case` / `typeAssert` matching in the interpreter.
     `typedSrc`: the operand has a non-empty interface type (its value is a `valueInterface`). -/
 def matchIfaceY (D : Decls) (d : Dyn) (ty : TyRef) : Bool :=
-  let m0 := methodSigsY D d.t
+  let m0 := methodSigsY D d.t d.ptr
   (ifaceNamesY D ty).all (fun k => m0.any (fun p => p.1 == k.1 && p.2 == k.2))
 
 /-- type-switch clause test of `_case` -/
